@@ -283,6 +283,9 @@ def applyOpX (t : Tab) : OpX → Except Err (Tab × Option (Bool × Bool))
       .ok (r.1, some (r.2.1, r.2.2 ≠ 0))
     else .error .assertion
 
+/-- `control_y_gate(tableau, c, t)` of transformation.py = `phase_gate; z_gate; cnot_gate; phase_gate` (on the target) -/
+def cyGate (t : Tab) (c tg : Nat) : Tab := (((t.sGate tg).zGate tg).cnotGate c tg).sGate tg
+
 /-- `tensor(list_of_tables)`: the list is folded into its first element, one `tensor2` step per further factor -/
 def tensorList (t : Tab) (ts : List Tab) : Tab := ts.foldl tensor2 t
 
